@@ -1302,3 +1302,52 @@ impl VerifYamuxPair {
         })
     }
 }
+
+/// Verification hook: a [`Substream`] of the TCP (`websocket == false`) or WebSocket substream type
+/// with the given codec over a caller-supplied yamux stream (no lifetime permit). Without the
+/// `websocket` feature the TCP type is used.
+#[cfg(feature = "verif")]
+pub fn verif_substream_over_yamux(
+    websocket: bool,
+    stream: crate::yamux::Stream,
+    codec: ProtocolCodec,
+    id: usize,
+) -> Substream {
+    use tokio_util::compat::FuturesAsyncReadCompatExt;
+
+    let peer = PeerId::random();
+    let id = SubstreamId::from(id);
+    let io = stream.compat();
+    #[cfg(feature = "websocket")]
+    if websocket {
+        return Substream::new_websocket(
+            peer,
+            id,
+            websocket::Substream::new(io, crate::BandwidthSink::new(), None),
+            codec,
+        );
+    }
+    let _ = websocket;
+    Substream::new_tcp(
+        peer,
+        id,
+        tcp::Substream::new(io, crate::BandwidthSink::new(), None),
+        codec,
+    )
+}
+
+/// Verification hook: a [`Substream`] of the WebRTC substream type with the given codec, together with
+/// the handle the WebRTC connection would drive (outbound messages come out of it as a stream,
+/// inbound messages go in through `on_message`).
+#[cfg(all(feature = "verif", feature = "webrtc"))]
+pub fn verif_substream_over_webrtc(
+    codec: ProtocolCodec,
+    id: usize,
+) -> (Substream, webrtc::verif::SubstreamHandle) {
+    let (substream, handle) = webrtc::Substream::new();
+
+    (
+        Substream::new_webrtc(PeerId::random(), SubstreamId::from(id), substream, codec),
+        handle,
+    )
+}
